@@ -313,6 +313,16 @@ func c09Ciphers(c *Ctx, gen *ast.FuncDecl) {
 				if v, ok := an.ConstInt(info, be.Y); ok {
 					named[v] = true
 				}
+				if v, ok := an.ConstInt(info, be.X); ok {
+					named[v] = true
+				}
+			}
+			if cc, ok := n.(*ast.CaseClause); ok { // switch cipher { case A, B, C: … }
+				for _, e := range cc.List {
+					if v, ok := an.ConstInt(info, e); ok {
+						named[v] = true
+					}
+				}
 			}
 			return true
 		})
@@ -406,57 +416,114 @@ func c09SuiteImplemented(c *Ctx, id int64) bool {
 }
 
 func c09LessShape(c *Ctx, less *ast.FuncDecl) bool {
+	// decided by evaluating the body on the two mixed cases: Less(i,j) must be false when only i
+	// is obsolete and true when only j is; any way of writing that is accepted
 	info := c.Info()
 	params := less.Type.Params.List[0].Names
 	if len(params) != 2 {
 		return false
 	}
 	iO, jO := info.Defs[params[0]], info.Defs[params[1]]
-	obs := func(e ast.Expr, idx types.Object, neg bool) bool {
-		e = an.Unparen(e)
-		if u, ok := e.(*ast.UnaryExpr); ok && u.Op == token.NOT {
-			if !neg {
-				return false
+	eval := func(vi, vj bool) (res bool, known bool) {
+		var ev func(e ast.Expr) (bool, bool)
+		ev = func(e ast.Expr) (bool, bool) {
+			e = an.Unparen(e)
+			switch x := e.(type) {
+			case *ast.Ident:
+				if x.Name == "true" {
+					return true, true
+				}
+				if x.Name == "false" {
+					return false, true
+				}
+			case *ast.UnaryExpr:
+				if x.Op == token.NOT {
+					v, ok := ev(x.X)
+					return !v, ok
+				}
+			case *ast.SelectorExpr:
+				if x.Sel.Name == "isObsolete" {
+					if ix, ok := an.Unparen(x.X).(*ast.IndexExpr); ok {
+						if id, ok := an.Unparen(ix.Index).(*ast.Ident); ok {
+							switch info.Uses[id] {
+							case iO:
+								return vi, true
+							case jO:
+								return vj, true
+							}
+						}
+					}
+				}
+			case *ast.BinaryExpr:
+				a, oka := ev(x.X)
+				b, okb := ev(x.Y)
+				switch x.Op {
+				case token.LAND:
+					if (oka && !a) || (okb && !b) {
+						return false, true
+					}
+					return a && b, oka && okb
+				case token.LOR:
+					if (oka && a) || (okb && b) {
+						return true, true
+					}
+					return a || b, oka && okb
+				case token.EQL:
+					return a == b, oka && okb
+				case token.NEQ:
+					return a != b, oka && okb
+				}
 			}
-			e = an.Unparen(u.X)
-		} else if neg {
-			return false
+			return false, false
 		}
-		se, ok := e.(*ast.SelectorExpr)
-		if !ok || se.Sel.Name != "isObsolete" {
-			return false
+		var run func(list []ast.Stmt) (bool, bool, bool) // result, known, returned
+		run = func(list []ast.Stmt) (bool, bool, bool) {
+			for _, st := range list {
+				switch x := st.(type) {
+				case *ast.IfStmt:
+					if x.Init != nil {
+						return false, false, true
+					}
+					cv, ok := ev(x.Cond)
+					if !ok {
+						return false, false, true
+					}
+					if cv {
+						if r, k, ret := run(x.Body.List); ret {
+							return r, k, true
+						}
+					} else if x.Else != nil {
+						var el []ast.Stmt
+						switch e := x.Else.(type) {
+						case *ast.BlockStmt:
+							el = e.List
+						case *ast.IfStmt:
+							el = []ast.Stmt{e}
+						}
+						if r, k, ret := run(el); ret {
+							return r, k, true
+						}
+					}
+				case *ast.ReturnStmt:
+					if len(x.Results) != 1 {
+						return false, false, true
+					}
+					v, ok := ev(x.Results[0])
+					return v, ok, true
+				case *ast.BlockStmt:
+					if r, k, ret := run(x.List); ret {
+						return r, k, true
+					}
+				default:
+					return false, false, true
+				}
+			}
+			return false, false, false
 		}
-		ix, ok := an.Unparen(se.X).(*ast.IndexExpr)
-		if !ok {
-			return false
-		}
-		id, ok := an.Unparen(ix.Index).(*ast.Ident)
-		return ok && info.Uses[id] == idx
+		r, k, ret := run(less.Body.List)
+		return r, k && ret
 	}
-	var first, second bool
-	for _, st := range less.Body.List {
-		is, ok := st.(*ast.IfStmt)
-		if !ok || len(is.Body.List) != 1 {
-			continue
-		}
-		ret, ok := is.Body.List[0].(*ast.ReturnStmt)
-		if !ok || len(ret.Results) != 1 {
-			continue
-		}
-		be, ok := an.Unparen(is.Cond).(*ast.BinaryExpr)
-		if !ok || be.Op != token.LAND {
-			continue
-		}
-		val, _ := ret.Results[0].(*ast.Ident)
-		if val == nil {
-			continue
-		}
-		if (obs(be.X, iO, false) && obs(be.Y, jO, true)) || (obs(be.Y, iO, false) && obs(be.X, jO, true)) {
-			first = val.Name == "false"
-		}
-		if (obs(be.X, jO, false) && obs(be.Y, iO, true)) || (obs(be.Y, jO, false) && obs(be.X, iO, true)) {
-			second = val.Name == "true"
-		}
-	}
-	return first && second
+	a, oka := eval(true, false)
+	b, okb := eval(false, true)
+	return oka && okb && !a && b
 }
